@@ -110,6 +110,7 @@ var deviations = []struct {
 	{"typed_nil_not_null", "SoyDataMC", "InvNil", 4},
 	{"text_map_order", "SoyDataPairs", "InvTextFn", 0},
 	{"marshaler_checked_after_deref", "SoyDataMC", "InvMarshaler", 5},
+	{"cache_by_printed_name", "SoyDataHist", "InvHistory", 0},
 }
 
 func (c *checker) run() {
@@ -143,11 +144,17 @@ func (c *checker) run() {
 	devJobs := map[string]*job{}
 	for _, d := range deviations {
 		extra := fmt.Sprintf("CONSTANT Size = 1\nCONSTANT Part = %d\n", d.part)
+		if d.module == "SoyDataHist" {
+			extra = "CONSTANT MaxLen = 2\nCONSTANT Wide = FALSE\n"
+		}
 		if d.module == "SoyDataPairs" {
 			extra = "CONSTANT Size = 1\nCONSTANT Part = 0\nCONSTANT NParts = 1\n"
 		}
 		devJobs[d.name] = add("M1-deviation-"+d.name, core.TLCOpts{Module: d.module, Cfg: c.cfg(d.name, extra, d.inv), Workers: 1})
 	}
+	// M1 + M2, histories: conversion is a function of the value alone
+	histCfg := fmt.Sprintf("CONSTANT MaxLen = 2\nCONSTANT Wide = %s\n", map[bool]string{false: "FALSE", true: "TRUE"}[ctx.Thorough()])
+	histJob := add("M1M2-histories", core.TLCOpts{Module: "SoyDataHist", Cfg: c.cfg("", histCfg, "InvHistory", "Emit"), Workers: 1})
 	// M3: record real conversions while TLC works, then validate
 	traceChunks := c.recordTraces(ctx.Pick(3000, 80000), ctx.Pick(1500, 5000))
 	var traceJobs []*job
@@ -205,6 +212,7 @@ func (c *checker) run() {
 		}
 	}
 	c.replayPairs(pairJobs)
+	c.replayHistories(histJob)
 
 	// deviations: caught by TLC? and the counterexample replayed on the real code
 	devReport := map[string]interface{}{}
@@ -766,6 +774,24 @@ func (c *checker) replayCex(cex string) string {
 	if err := d.Decode(&m); err != nil {
 		return "unparsable counterexample: " + err.Error()
 	}
+	if raw, ok := m["hist"].([]interface{}); ok && len(raw) > 0 {
+		var steps []histStep
+		for _, x := range raw {
+			st, _ := asD(x)
+			g, _ := asD(st["g"])
+			o, _ := asD(st["o"])
+			steps = append(steps, histStep{G: g, O: o})
+		}
+		whole, err1 := runHistory(steps)
+		alone, err2 := runHistory(steps[len(steps)-1:])
+		if err1 != nil || err2 != nil {
+			return fmt.Sprintf("history could not be replayed: %v %v", err1, err2)
+		}
+		if showRes(whole[len(whole)-1]) != showRes(alone[0]) {
+			return "real code SHOWS the deviation: " + showRes(whole[len(whole)-1]) + " after the prefix, " + showRes(alone[0]) + " alone"
+		}
+		return "real code agrees with the reference model (deviation absent)"
+	}
 	if g, ok := asD(m["g"]); ok {
 		agreed, seen := c.byG[canon(g)]
 		switch {
@@ -864,6 +890,32 @@ func (c *checker) replay(path string) {
 	}
 	r := v.Replay
 	switch dstr(r, "kind") {
+	case "history":
+		raw, _ := r["steps"].([]interface{})
+		var steps []histStep
+		for _, x := range raw {
+			st, _ := asD(x)
+			g, _ := asD(st["g"])
+			o, _ := asD(st["o"])
+			steps = append(steps, histStep{G: g, O: o})
+		}
+		k64, _ := toI64(r["step"])
+		k := int(k64)
+		if k < 0 || k >= len(steps) {
+			ctx.ToolError("replay: bad history")
+			return
+		}
+		whole, err1 := runHistory(steps[:k+1])
+		alone, err2 := runHistory(steps[k : k+1])
+		if err1 != nil || err2 != nil {
+			ctx.ToolError("replay: %v %v", err1, err2)
+			return
+		}
+		fmt.Printf("replay history: step %d gives %s; alone %s\n", k, showRes(whole[k]), showRes(alone[0]))
+		if showRes(whole[k]) != showRes(alone[0]) {
+			ctx.Violation(core.Sig{Family: "history", Feature: "conversion-depends-on-earlier-conversions:" + collision(steps[:k], steps[k])},
+				"replayed history: the conversion still depends on the earlier conversions", r)
+		}
 	case "pair":
 		sa, err1 := parseSVi(r["a"])
 		sb, err2 := parseSVi(r["b"])
